@@ -447,7 +447,11 @@ impl Deb822 {
             } else {
                 paragraph.1
             };
-            inject(&mut builder, new_paragraph.0);
+            // Only the last line of the input may lack its line end, and this paragraph
+            // need not be the last one any more
+            let new_paragraph = new_paragraph.0.clone_subtree().clone_for_update();
+            ensure_trailing_newline(&new_paragraph);
+            inject(&mut builder, new_paragraph);
         }
 
         for c in current {
@@ -455,7 +459,10 @@ impl Deb822 {
         }
 
         builder.finish_node();
-        Self(SyntaxNode::new_root_mut(builder.finish()))
+        let root = SyntaxNode::new_root_mut(builder.finish());
+        // ... nor a comment after the last paragraph, which joins it when the result is read back
+        ensure_trailing_newline(&root);
+        Self(root)
     }
 
     /// Returns an iterator over all paragraphs in the file.
